@@ -233,17 +233,17 @@ impl VfText {
 /// format!("{}\n", n) for n: usize -- assumed: non-empty, and from_utf8(..).trim().parse::<usize>() gives n back
 #[verifier::external_body]
 pub fn vf_fmt_usize_nl(n: usize) -> (r: VfText)
-    ensures vf_parse_index(r.bytes()) == Some(n), r.bytes().len() >= 2
+    ensures vf_parse_index(r.bytes()) == Some(n), r.bytes().len() >= 2, text_ok(ArgClass::DecNl, r.bytes())
 { unimplemented!() }
 /// format!("{}\n", x) for x: f64
 #[verifier::external_body]
 pub fn vf_fmt_f64_nl(x: f64) -> (r: VfText)
-    ensures r.bytes().len() >= 2
+    ensures r.bytes().len() >= 2, text_ok(ArgClass::FloatNl, r.bytes())
 { unimplemented!() }
 /// format!("pid_{}\n", n)
 #[verifier::external_body]
 pub fn vf_fmt_pid_nl(n: u32) -> (r: VfText)
-    ensures r.bytes().len() >= 6
+    ensures r.bytes().len() >= 6, text_ok(ArgClass::LineNl, r.bytes())
 { unimplemented!() }
 
 #[verifier::external_body]
@@ -253,7 +253,9 @@ pub fn vf_u32_to_le_bytes(x: u32) -> (r: [u8; 4])
     ensures vstd::bytes::spec_u32_from_le_bytes(seq![r@[0], r@[1], r@[2], r@[3]]) == x
 { unimplemented!() }
 #[verifier::external_body]
-pub fn vf_u16_to_le_bytes(x: u16) -> (r: [u8; 2]) { unimplemented!() }
+pub fn vf_u16_to_le_bytes(x: u16) -> (r: [u8; 2])
+    ensures r@[0] as int + 256 * (r@[1] as int) == x
+{ unimplemented!() }
 #[verifier::external_body]
 pub fn vf_sat_add_u8(x: u8, y: u8) -> (r: u8)
     ensures r as int == if x + y > 255 { 255int } else { x + y }
